@@ -68,7 +68,7 @@ def mol_strategy(draw, kinds):
     return {"kind": kind, "d": draw(st.floats(0.85, 1.2))}
 
 
-METHODS = ["rhf", "rhf-uhf-trial", "rohf", "uhf", "df-rhf", "ccsd", "uccsd", "lattice"]
+METHODS = ["rhf", "rhf-uhf-trial", "rohf", "uhf", "df-rhf", "ccsd", "uccsd", "lattice", "integrals-mol"]
 
 
 @st.composite
@@ -105,6 +105,13 @@ def case_strategy(draw, tier, shard=0, nshards=1):
         if c["mol"]["kind"] == "Hchain":
             c["mol"]["basis"] = "sto-3g"
             c["mol"]["d"] = draw(st.floats(1.2, 2.4))  # stretched: the UHF solution breaks spin symmetry
+        c["walker_type"] = "uhf"
+        c["dm_seed"] = draw(st.integers(0, 10**6))
+    elif method == "integrals-mol":
+        # a molecule handed over through the custom-integrals path (orthonormal MO basis): small ones have a full-rank pair matrix
+        c["mol"] = draw(mol_strategy(["Hchain"]))
+        c["mol"]["nat"] = draw(st.sampled_from([2, 3, 4]))
+        c["mol"]["basis"] = "sto-3g"
         c["walker_type"] = "uhf"
         c["dm_seed"] = draw(st.integers(0, 10**6))
     else:
@@ -147,6 +154,31 @@ def _scf(case):
         dm = dm + 0.3 * rng.normal(size=dm.shape)
         dm = (dm + dm.transpose(0, 2, 1)) / 2
         mf.kernel(dm)
+        return mol, mf, None, integrals
+    if m == "integrals-mol":
+        rmol = build_mol(case["mol"])
+        rmf = (scf.RHF(rmol) if rmol.spin == 0 else scf.ROHF(rmol))
+        rmf.conv_tol = 1e-11
+        rmf.verbose = 0
+        rmf.kernel()
+        Cm = rmf.mo_coeff
+        n = rmol.nao
+        h1 = Cm.T @ rmf.get_hcore() @ Cm
+        h2 = ao2mo.restore(1, ao2mo.kernel(rmol, Cm), n)
+        integrals = {"h0": float(rmol.energy_nuc()), "h1": h1, "h2": ao2mo.restore(8, h2, n)}
+        mol = gto.Mole()
+        mol.nelectron = rmol.nelectron
+        mol.incore_anyway = True
+        mol.spin = rmol.spin
+        mol.verbose = 0
+        mol.build()
+        mf = scf.UHF(mol)
+        mf.get_hcore = lambda *a: h1
+        mf.get_ovlp = lambda *a: np.eye(n)
+        mf._eri = ao2mo.restore(8, h2, n)
+        mf.conv_tol = 1e-11
+        mf.kernel()
+        mf.e_tot = mf.e_tot + float(rmol.energy_nuc())  # the dummy molecule has no nuclei; h0 carries the repulsion
         return mol, mf, None, integrals
     mol = build_mol(case["mol"])
     if m in ("rhf", "rhf-uhf-trial", "ccsd"):
@@ -233,14 +265,16 @@ def body(ctx, case):
         basis_coeff = mf.mo_coeff @ R
     elif m == "lattice":
         basis_coeff = np.eye(int(case["lattice"]["n"]))
-    trial_opt = {"rhf": "rhf", "rhf-uhf-trial": "uhf", "df-rhf": "rhf", "rohf": "uhf", "uhf": "uhf", "ccsd": "cisd", "uccsd": "ucisd", "lattice": "uhf"}[m]
+    elif m == "integrals-mol":
+        basis_coeff = np.eye(integrals["h1"].shape[0])
+    trial_opt = {"rhf": "rhf", "rhf-uhf-trial": "uhf", "df-rhf": "rhf", "rohf": "uhf", "uhf": "uhf", "ccsd": "cisd", "uccsd": "ucisd", "lattice": "uhf", "integrals-mol": "uhf"}[m]
     if m in ("rhf", "df-rhf") and case["walker_type"] == "uhf":
         trial_opt = "uhf"
     if m == "ccsd":
         case_wt = "rhf"
     else:
         case_wt = case["walker_type"]
-    norb_corr = (mol.nao if m != "lattice" else int(case["lattice"]["n"])) - nfrozen
+    norb_corr = (integrals["h1"].shape[0] if integrals is not None else mol.nao) - nfrozen
     ctx.case(case, nontrivial=nel_corr >= 2 and norb_corr > max(nelec) - nfrozen, classes=["method:" + m, "basis:" + case["basis_choice"], f"frozen={nfrozen}", f"chol_cut={chol_cut:g}", f"trial={trial_opt}/walkers={case_wt}"])
     with runs.scratch_dir("verif_c16_"):
         try:
@@ -284,8 +318,8 @@ def body(ctx, case):
         na, nb = (want_ne + want_ms) // 2, (want_ne - want_ms) // 2
         eri = np.einsum("gij,gkl->ijkl", chol, chol)
         e_written = _lowest(fci, h1, eri, nmo, (na, nb), h0)
-        if m == "lattice":
-            e_ref = _lowest(fci, integrals["h1"], __import__("pyscf").ao2mo.restore(1, integrals["h2"], nmo), nmo, (na, nb), 0.0)
+        if integrals is not None:
+            e_ref = _lowest(fci, integrals["h1"], __import__("pyscf").ao2mo.restore(1, integrals["h2"], nmo), nmo, (na, nb), float(integrals["h0"]))
         elif nfrozen:
             mc = mcscf.CASCI(mf, mol.nao - nfrozen, mol.nelectron - 2 * nfrozen)
             mc.verbose = 0
@@ -315,5 +349,5 @@ def body(ctx, case):
 
 
 SUBCHECKS = [
-    SubCheck("prep_and_readback", body=body, strategy=case_strategy, examples={"quick": 3, "thorough": 40}, shards={"quick": 8, "thorough": 16}, shrink=False),
+    SubCheck("prep_and_readback", body=body, strategy=case_strategy, examples={"quick": 5, "thorough": 40}, shards={"quick": 9, "thorough": 18}, shrink=False),
 ]
